@@ -36,16 +36,22 @@ def setup():
 def c01(ctx):
     ctx.mon("c01/asm-debug", "asm", "debug", ["c01"])
     ctx.mon("c01/asm-release", "asm", "release", ["c01"])
+    if ctx.thorough:
+        core.coverage_evidence(ctx, ['c01'], ['/repo/src/lib.rs', '/repo/src/portable.rs', '/repo/src/platform.rs', '/repo/src/hazmat.rs'])
 
 
 def c02(ctx):
     ctx.mon("c02/asm-debug", "asm", "debug", ["c02"])
     ctx.mon("c02/asm-release", "asm", "release", ["c02"])
+    if ctx.thorough:
+        core.coverage_evidence(ctx, ['c02'], ['/repo/src/lib.rs', '/repo/src/io.rs', '/repo/src/join.rs'])
 
 
 def c03(ctx):
     ctx.mon("c03/asm-debug", "asm", "debug", ["c03"])
     ctx.mon("c03/asm-release", "asm", "release", ["c03"])
+    if ctx.thorough:
+        core.coverage_evidence(ctx, ['c03'], ['/repo/src/lib.rs', '/repo/src/platform.rs'])
 
 
 def _seam():
@@ -76,11 +82,18 @@ def c08(ctx):
 def c09(ctx):
     ctx.mon("c09/asm-debug", "asm", "debug", ["c09"])
     ctx.mon("c09/asm-release", "asm", "release", ["c09"])
+    if ctx.thorough:
+        core.coverage_evidence(ctx, ['c09'], ['/repo/src/hazmat.rs', '/repo/src/lib.rs'])
 
 
 def c10(ctx):
     ctx.mon("c10/asm-debug", "asm", "debug", ["c10"])
     ctx.mon("c10/asm-release", "asm", "release", ["c10"])
+    # reset through the RustCrypto traits (src/traits.rs is one of this property's anchors): the C16
+    # trait-history monitor compares the state left behind by every resetting variant
+    ctx.mon("c10/trait-resets", "asm", "debug", ["c16", "--scale", "0.5"], adopt=lambda sig: sig.startswith("C16/traits"))
+    if ctx.thorough:
+        core.coverage_evidence(ctx, ['c10', 'c16'], ['/repo/src/lib.rs', '/repo/src/hazmat.rs', '/repo/src/traits.rs'])
 
 
 def kernel_sweeps(ctx, scale):
@@ -225,6 +238,8 @@ def c11(ctx):
                 os.unlink(f)
             except OSError:
                 pass
+    if ctx.thorough:
+        core.coverage_evidence(ctx, ['c11'], ['/repo/src/io.rs', '/repo/src/lib.rs'])
 
 
 def c14(ctx):
@@ -270,12 +285,16 @@ def c15(ctx):
 def c16(ctx):
     ctx.mon("c16/asm-debug", "asm", "debug", ["c16"])
     ctx.mon("c16/asm-release", "asm", "release", ["c16"])
+    if ctx.thorough:
+        core.coverage_evidence(ctx, ['c16'], ['/repo/src/traits.rs', '/repo/src/guts.rs', '/repo/src/lib.rs'])
 
 
 def c17(ctx):
     ctx.mon("c17/asm-debug", "asm", "debug", ["c17"])
     ctx.mon("c17/asm-release", "asm", "release", ["c17"])
     ctx.mon("c17/pure-debug", "pure", "debug", ["c17", "--scale", "0.3"])
+    if ctx.thorough:
+        core.coverage_evidence(ctx, ['c17'], ['/repo/src/lib.rs', '/repo/src/guts.rs'])
 
 
 def c18(ctx):
